@@ -322,6 +322,9 @@ Definition run (op : N) (a : V) : V :=
   | 63 (* tcp_wrap *) => v_res VBytes (tcp_wrap (as_n (arg 0 a)) (as_n (arg 1 a)) (as_bytes (arg 2 a)))
   | 64 (* tcp_recv *) =>
       let '(r, (rest, _)) := tcp_recv (as_bytes (arg 0 a), as_nats (arg 1 a)) in VList [v_res VBytes r; VBytes rest]
+  | 66 (* tcp_recv_n *) =>
+      let '(rs, (rest, _)) := tcp_recv_n (N.to_nat (as_n (arg 2 a))) (as_bytes (arg 0 a), as_nats (arg 1 a)) in
+      VList [VList (map (v_res VBytes) rs); VBytes rest]
   | 65 (* spec_std_header *) => VBytes (std_header (as_n (arg 0 a)) (as_n (arg 1 a)) (as_n (arg 2 a)) (as_n (arg 3 a)))
   (* ---- date-time codec (C16) ---- *)
   | 70 (* datetime_to_bytes *) => v_res VBytes (datetime_to_bytes (as_dtime (arg 0 a)) (as_opt_cstat (arg 1 a)))
